@@ -114,11 +114,34 @@ class C14(core.Check):
         else:
             d = gdocs.random_document(rnd, size=rnd.randint(2, 7), lang=case['lang'], kinds=DOC_KINDS, max_depth=4,
                                       pack='*', theorems=False, preamble=case['s'] % 3 != 0)
+        cnt = {'fam_doc': 1}
+        srclen = {}
+        if not plain_input and case['s'] % 5 in (2, 4):
+            # some words are continued on the next source line behind a comment sign: one word of the plain text
+            # whose source spans a line break (its report starts in one line and ends in the next)
+            src_ = d.src
+            ws = sorted(d.words, key=lambda x: x[1])
+            elig = [i for i, (w, st, path) in enumerate(ws) if len(w) >= 3 and w.isascii() and d.src.count(w) == 1
+                    and not any(t in p for p in path for t in ('verb', 'math', 'lst', 'twice'))]
+            pick = set(rnd.sample(elig, min(len(elig), rnd.randint(1, 3))))
+            shift = 0
+            out = []
+            for i, (w, st, path) in enumerate(ws):
+                st += shift
+                if i in pick:
+                    k = rnd.randint(1, len(w) - 1)
+                    ins = '%' + rnd.choice(['', 'hcQ', ' hc']) + '\n' + rnd.choice(['', '  ', '\t'])
+                    src_ = src_[:st + k] + ins + src_[st + k:]
+                    shift += len(ins)
+                    srclen[w] = len(w) + len(ins)
+                out.append((w, st, path))
+            d.src = src_
+            d.words = out
+            cnt['split_words'] = len(pick)
         src = d.src if case['newline_end'] else d.src.rstrip('\n')
         lang = {'en': 'en-GB', 'de': 'de-DE', 'ru': 'ru-RU'}[case['lang']]
         plan = {'mode': 'words', 'regex': WORD, 'every': case['every']}
         words = {w: st for w, st, path in d.words}
-        cnt = {'fam_doc': 1}
         base = ['--language', lang]
         own = case['s'] % 4 == 1
         if own:
@@ -168,7 +191,9 @@ class C14(core.Check):
                 continue            # a word glued to a neighbour etc.: not judged
             o = words[w]
             ln, col = line_col(tex_, o)
-            want = dict(offset=o, length=len(w), fromy=ln - 1, fromx=col - 1, toy=ln - 1, tox=col - 1 + len(w))
+            sl = srclen.get(w, len(w))
+            ln2, col2 = line_col(tex_, o + sl - 1)
+            want = dict(offset=o, length=sl, fromy=ln - 1, fromx=col - 1, toy=ln2 - 1, tox=col2)
             got = dict(offset=m['offset'], length=m['length'], **{k: m['priv'][k] for k in ('fromy', 'fromx', 'toy', 'tox')})
             if got != want:
                 detail.update(got=got, want=want)
@@ -222,13 +247,16 @@ class C14(core.Check):
                 continue
             w, o, ln, col = locs[mid]
             nl = tex_.rfind('\n', 0, o) + 1
+            e_ = o + srclen.get(w, len(w))          # one behind the last source character of the word
+            nl2 = tex_.rfind('\n', 0, e_ - 1) + 1
+            ln2 = tex_.count('\n', 0, e_ - 1) + 1
             if case['xmlb']:
                 fx = len(tex_[nl:o].encode())
-                tx = len(tex_[nl:o + len(w)].encode())
+                tx = len(tex_[nl2:e_].encode())
             else:
                 fx = o - nl
-                tx = o - nl + len(w)
-            want = [ln - 1, fx, ln - 1, tx]
+                tx = e_ - nl2
+            want = [ln - 1, fx, ln2 - 1, tx]
             got = [int(e.get(k)) for k in ('fromy', 'fromx', 'toy', 'tox')]
             if got != want:
                 return dict(ok=False, nt=True, key=xmode + ':location', cnt=cnt, obs=None,
@@ -249,6 +277,8 @@ class C14(core.Check):
             if m:
                 byid.setdefault(m.group(1), []).append((htmlreport.norm(text), lineno))
         for mid, (w, o, ln, col) in locs.items():
+            if w in srclen:
+                continue        # highlighted source text of a split word contains the comment: judged by C16
             got = byid.get(mid)
             if not got:
                 return dict(ok=False, nt=True, key='html:match-missing', cnt=cnt, obs=None, detail=dict(src=src, word=w))
@@ -485,7 +515,7 @@ class C14(core.Check):
     def quotas(self, tier):
         return {'fam_doc': 40, 'docs_with_own_checks': 10, 'plain_input_docs': 8, 'flagged_words_judged': 300, 'fam_ml': 25, 'ml_words_judged': 100,
                 'ml_runs_with_several_parts': 10, 'ml_short_parts': 5, 'pairs_judged': 50, 'server_requests': 10, 'server_option_checks': 10,
-                'docs_with_non_ascii_words': 5}
+                'docs_with_non_ascii_words': 5, 'split_words': 20}
 
 
 CHECK = C14
